@@ -1,7 +1,7 @@
 """Adapters for reserved CFDP messages (proxy operations, directory listing, originating transaction ID)."""
 from __future__ import annotations
 
-from .core import outcome, octs
+from .core import outcome, octs, owned
 from .ops_cfdp import bf
 
 
@@ -108,7 +108,7 @@ def op_msg_rt(a):
 
     def run():
         m = mk_msg(kind, p)
-        raw = m.pack()
+        raw = owned(m.pack)
         plen = m.packet_len
         via = a.get("via", "unpack")
         if via == "unpack":
